@@ -394,6 +394,7 @@ func runSerialExtra(raw json.RawMessage, seed int64) (res Result) {
 			add("ProducedObjectsRoundTrip", fmt.Sprintf("%s compressed public key %x: %v", label, pk.EncodeCompressed(), err))
 		}
 	}
+	var prevSK crypto.PrivateKey
 	for _, a := range []crypto.SigningAlgorithm{crypto.BLSBLS12381, crypto.ECDSAP256, crypto.ECDSASecp256k1} {
 		for k := 0; k < 6; k++ {
 			sk, err := crypto.GeneratePrivateKey(a, w.randBytes(32+w.Rng.Intn(200)))
@@ -403,6 +404,11 @@ func runSerialExtra(raw json.RawMessage, seed int64) (res Result) {
 			}
 			rtSK("generated "+a.String(), a, sk)
 			rtPK("generated "+a.String(), a, sk.PublicKey())
+			// "an Equal object" means something: objects of different keys, or of different algorithms, are not Equal
+			if prevSK != nil && (sk.Equals(prevSK) || prevSK.Equals(sk) || sk.PublicKey().Equals(prevSK.PublicKey()) || prevSK.PublicKey().Equals(sk.PublicKey())) {
+				add("ProducedObjectsRoundTrip", fmt.Sprintf("two different keys (%s and %s) are Equal", a, prevSK.Algorithm()))
+			}
+			prevSK = sk
 		}
 	}
 	// aggregated keys (non-zero), threshold keygen outputs, DKG-free identity key
